@@ -260,6 +260,9 @@ def cells(tier, seed=0):
                         subsets = [(), (0, 1, 2)]
                     for sub in subsets:
                         out.append({"cls": kind, "situation": sit, "mode": mode, "argform": list(form), "neigh": list(sub), "name": name, "neigh_names": neigh_names})
+                    if nc and form[0] == "name":
+                        # the same process has read the existing record before (anything remembered per path is now stale)
+                        out.append({"cls": kind, "situation": sit, "mode": mode, "argform": list(form), "neigh": [], "name": name, "neigh_names": neigh_names, "preopen": True})
     return out
 
 
@@ -282,6 +285,13 @@ def check_cell(cell):
         expected = _expected_dump(hist) if nc else None
         own = sorted(f for f in os.listdir(d) if f.split(".")[0] == name)
         own_cont = [f for f in own if f.endswith(".ih5")]
+        if cell.get("preopen"):
+            try:
+                r0 = cls(os.path.join(d, name), "r")
+                ih5lib.dump(r0)
+                r0.close()
+            except Exception:
+                pass
         h0 = ih5lib.dir_hashes(d)
         # --- syntactic discovery
         nchecks += 1
@@ -447,7 +457,10 @@ def check_cell(cell):
             exp_final = h5ops.dump_visit(m)
         finally:
             m.close()
-        r2 = cls(os.path.join(d, name), "r")
+        try:
+            r2 = cls(os.path.join(d, name), "r")
+        except Exception as e:
+            return V("reopen-after-write-failed", f"after {mode}-open, write and close the record does not open any more: {type(e).__name__}: {e}"[:400])
         try:
             nchecks += 1
             if ih5lib.dump(r2) != exp_final:
